@@ -165,6 +165,15 @@ def spmc_head_protocol(ctx):
             ctx.ob("R-PAIR", fid, fn + "/store-only-under-lock", not bad2, "head is overwritten with a plain store only by the taker that holds the transition lock" if not bad2 else
                    "%s stores to head on a path that did not take the transition lock (%s false): concurrent takers' claims are overwritten - tasks handed out twice or lost" % (fn, why_lock),
                    f.where(bad2[0]) if bad2 else f.where(post_stores[0]))
+        # (0) a claim is attempted only when the head slot looks published: another block than the tail block, or id < push id
+        PEQ = r"(std|core)::ptr::(eq|const_ptr::eq|mut_ptr::eq)"
+        def looks_published(a):
+            if call_false(PEQ)(a): return True
+            return a.kind == "cmp" and ((a.op == "Lt" and _unpack_field(a.a, 1)) or (a.op == "Gt" and _unpack_field(a.b, 1)))
+        ctx.guarded(fid, lambda g: cs, looks_published, fn + "/claim-only-if-head-slot-published",
+                    "%s attempts its head CAS only when the head is in another block than the tail block or its slot id is below the published push id (a claim beyond the tail "
+                    "is what only a stale stealer produces; the owner's skip path asserts it)" % fn, rule="R-EXIT", invalidate=Call(cas, on=HEAD, transitive=False),
+                    pred_label="edge `block != tail_block` / `id < push_id`")
         # (4) what is stored: the old head only when nothing was there (restore), `next` only when the block is used up
         nxt = [x for x in post_stores if is_call_result(A("load"), Q + "::BlockNode.next", f)(simplify(trace_operand(f, f.node(x)["args"][1])))]
         if not nxt:
@@ -513,3 +522,4 @@ def check(ctx):
     # local side ops take &mut self (single owner at the type level) — checked through the confinement chain in may
     if ctx.prog.fn("may::scheduler::Scheduler::schedule_with_id") is not None:
         shared.worker_queue_confinement(ctx)
+    shared.copy_to_bulk_rules(ctx)
